@@ -47,6 +47,96 @@ type c11Case struct {
 	ReqHeaders []string `json:"req_headers,omitempty"` // Access-Control-Request-Headers values
 	Pre        bool     `json:"pre,omitempty"`         // installed with e.Pre instead of e.Use
 	Before     []string `json:"before,omitempty"`      // Origins of requests served through the same instance first
+
+	// round 5: further CORS instances on the path of the same request, inside the one described above (which is
+	// installed with e.Use / e.Pre): each at e.Use level (At 0), on the route's group (At 1) or on the route (At 2)
+	Stack []c11Layer `json:"stack,omitempty"`
+}
+
+// one more CORS instance (same meaning of the fields as in c11Case)
+type c11Layer struct {
+	At      int      `json:"at"`
+	Ctor    int      `json:"ctor,omitempty"`
+	Allow   []string `json:"allow"`
+	Creds   bool     `json:"creds,omitempty"`
+	Unsafe  bool     `json:"unsafe,omitempty"`
+	Skipper int      `json:"skipper,omitempty"`
+	Func    *c11Func `json:"func,omitempty"`
+	Methods []string `json:"methods,omitempty"`
+	Headers []string `json:"headers,omitempty"`
+	Expose  []string `json:"expose,omitempty"`
+	MaxAge  int      `json:"max_age,omitempty"`
+}
+
+func c11NormLayer(l c11Layer) c11Layer {
+	if l.Ctor == 1 {
+		l.Allow, l.Creds, l.Unsafe, l.Func, l.Skipper = nil, false, false, nil, 0
+		l.Methods, l.Headers, l.Expose, l.MaxAge = nil, nil, nil, 0
+	}
+	return l
+}
+
+// all instances on the request's path, outermost first: the case's own one, then the stack ordered by level
+func (c *c11Case) layers() []c11Layer {
+	out := []c11Layer{c11NormLayer(c11Layer{At: -1, Ctor: c.Ctor, Allow: c.Allow, Creds: c.Creds, Unsafe: c.Unsafe, Skipper: c.Skipper,
+		Func: c.Func, Methods: c.Methods, Headers: c.Headers, Expose: c.Expose, MaxAge: c.MaxAge})}
+	for at := 0; at <= 2; at++ {
+		for _, l := range c.Stack {
+			k := l.At
+			if k < 0 || k > 2 {
+				k = 2
+			}
+			if k == at {
+				l.At = k
+				out = append(out, c11NormLayer(l))
+			}
+		}
+	}
+	return out
+}
+
+func c11BuildCORS(l c11Layer, fcalls *[]string) echo.MiddlewareFunc {
+	if l.Ctor == 1 {
+		return middleware.CORS()
+	}
+	cfg := middleware.CORSConfig{
+		AllowOrigins:                             l.Allow,
+		AllowCredentials:                         l.Creds,
+		UnsafeWildcardOriginWithAllowCredentials: l.Unsafe,
+		AllowMethods:                             l.Methods,
+		AllowHeaders:                             l.Headers,
+		ExposeHeaders:                            l.Expose,
+		MaxAge:                                   l.MaxAge,
+	}
+	if l.Skipper == 1 {
+		cfg.Skipper = func(ctx echo.Context) bool { return ctx.Request().Header.Get(c11SkipHeader) != "" }
+	}
+	if l.Func != nil {
+		f := l.Func
+		cfg.AllowOriginFunc = func(o string) (bool, error) {
+			*fcalls = append(*fcalls, o)
+			switch k := f.class(o); {
+			case k == 1:
+				return true, nil
+			case k == 2:
+				return false, nil
+			case k == 500:
+				return f.ErrTrue, errC11Func
+			default:
+				return f.ErrTrue, echo.NewHTTPError(k)
+			}
+		}
+	}
+	return middleware.CORSWithConfig(cfg)
+}
+
+func c11LayerOps(l c11Layer, skipped bool, routerAllow, origin string) string {
+	fn := 0
+	if l.Func != nil {
+		fn = l.Func.class(origin)
+	}
+	return strings.Join([]string{wBool(skipped), wStr(routerAllow), wInt(l.Ctor), wBool(l.Creds), wBool(l.Unsafe), wStrs(l.Allow), wInt(fn),
+		wStrs(l.Methods), wStrs(l.Headers), wStrs(l.Expose), wInt(l.MaxAge)}, " ")
 }
 
 // AllowOriginFunc as a table: error (status Code; 500 = a plain error) for the origins in Err, true for those in
@@ -117,6 +207,18 @@ func (c *c11Case) mapStrings(f func(string) string) c11Alias {
 		fn := *c.Func
 		fn.Allow, fn.Err = a3MapStrs(c.Func.Allow, f), a3MapStrs(c.Func.Err, f)
 		a.Func = &fn
+	}
+	if c.Stack != nil {
+		a.Stack = make([]c11Layer, len(c.Stack))
+		for i, l := range c.Stack {
+			l.Allow = a3MapStrs(l.Allow, f)
+			if l.Func != nil {
+				fn := *l.Func
+				fn.Allow, fn.Err = a3MapStrs(l.Func.Allow, f), a3MapStrs(l.Func.Err, f)
+				l.Func = &fn
+			}
+			a.Stack[i] = l
+		}
 	}
 	return a
 }
@@ -224,91 +326,84 @@ func c11Has(l []string, x string) bool {
 
 func c11Run(ci any) (res Result) {
 	c := c11Norm(ci.(*c11Case))
+	layers := c.layers()
+	n := len(layers)
 	ran := false
-	var fcalls []string
-	routerAllow := ""
-	skipped := c.Skipper == 1 && c.Skip
+	fcalls := make([][]string, n)
+	routerAllow := make([]string, n)
 	preflight := c.Method == http.MethodOptions
 	origin := ""
 	if len(c.Origin) > 0 {
 		origin = c.Origin[0]
 	}
-	fclass := 0
-	if c.Func != nil {
-		fclass = c.Func.class(origin)
+	skipped := make([]bool, n)
+	allSkipped, grouped := true, false
+	for i, l := range layers {
+		skipped[i] = l.Skipper == 1 && c.Skip
+		if !skipped[i] {
+			allSkipped = false
+		}
+		if l.At >= 1 {
+			grouped = true
+		}
 	}
 
 	e := echo.New()
-	var mw echo.MiddlewareFunc
-	if c.Ctor == 1 {
-		mw = middleware.CORS()
-	} else {
-		cfg := middleware.CORSConfig{
-			AllowOrigins:                             c.Allow,
-			AllowCredentials:                         c.Creds,
-			UnsafeWildcardOriginWithAllowCredentials: c.Unsafe,
-			AllowMethods:                             c.Methods,
-			AllowHeaders:                             c.Headers,
-			ExposeHeaders:                            c.Expose,
-			MaxAge:                                   c.MaxAge,
-		}
-		if c.Skipper == 1 {
-			cfg.Skipper = func(ctx echo.Context) bool { return ctx.Request().Header.Get(c11SkipHeader) != "" }
-		}
-		if c.Func != nil {
-			f := c.Func
-			cfg.AllowOriginFunc = func(o string) (bool, error) {
-				fcalls = append(fcalls, o)
-				switch k := f.class(o); {
-				case k == 1:
-					return true, nil
-				case k == 2:
-					return false, nil
-				case k == 500:
-					return f.ErrTrue, errC11Func
-				default:
-					return f.ErrTrue, echo.NewHTTPError(k)
+	// in front of every instance: what it will find under echo.ContextKeyHeaderAllow (the first probe may replace it)
+	probe := func(i int) echo.MiddlewareFunc {
+		return func(next echo.HandlerFunc) echo.HandlerFunc {
+			return func(ctx echo.Context) error {
+				if i == 0 {
+					switch c.CtxKind {
+					case 1:
+						ctx.Set(echo.ContextKeyHeaderAllow, c.CtxAllow)
+					case 2:
+						ctx.Set(echo.ContextKeyHeaderAllow, 42)
+					}
 				}
+				routerAllow[i] = ""
+				if v, ok := ctx.Get(echo.ContextKeyHeaderAllow).(string); ok {
+					routerAllow[i] = v
+				}
+				return next(ctx)
 			}
 		}
-		mw = middleware.CORSWithConfig(cfg)
 	}
-	// in front of CORS: what the middleware will find under echo.ContextKeyHeaderAllow
-	probe := func(next echo.HandlerFunc) echo.HandlerFunc {
-		return func(ctx echo.Context) error {
-			switch c.CtxKind {
-			case 1:
-				ctx.Set(echo.ContextKeyHeaderAllow, c.CtxAllow)
-			case 2:
-				ctx.Set(echo.ContextKeyHeaderAllow, 42)
-			}
-			routerAllow = ""
-			if v, ok := ctx.Get(echo.ContextKeyHeaderAllow).(string); ok {
-				routerAllow = v
-			}
-			return next(ctx)
+	var groupMW, routeMW []echo.MiddlewareFunc
+	for i, l := range layers {
+		i := i
+		mw := c11BuildCORS(l, &fcalls[i])
+		switch {
+		case l.At == -1 && c.Pre:
+			e.Pre(probe(i), mw)
+		case l.At <= 0:
+			e.Use(probe(i), mw)
+		case l.At == 1:
+			groupMW = append(groupMW, probe(i), mw)
+		default:
+			routeMW = append(routeMW, probe(i), mw)
 		}
-	}
-	if c.Pre {
-		e.Pre(probe, mw)
-	} else {
-		e.Use(probe, mw)
 	}
 	h := func(ctx echo.Context) error {
 		ran = true
 		return ctx.NoContent(http.StatusOK)
 	}
+	path, rpath := "/", "/"
+	g := e.Group("")
+	if grouped {
+		g = e.Group("/g", groupMW...)
+		path, rpath = "/g/x", "/x"
+	}
 	if c.Routes == nil {
-		e.Any("/", h)
+		g.Any(rpath, h, routeMW...)
 	} else {
 		routes := append([]string(nil), c.Routes...)
-		before := []string{http.MethodGet, http.MethodOptions}
 		need := []string{}
-		if !preflight || skipped {
+		if !preflight || c.Skip {
 			need = append(need, c.Method)
 		}
 		if len(c.Before) > 0 {
-			need = append(need, before[0])
+			need = append(need, http.MethodGet)
 		}
 		for _, m := range need {
 			if !c11Has(routes, m) {
@@ -319,12 +414,12 @@ func c11Run(ci any) (res Result) {
 		for _, m := range routes {
 			if !done[m] {
 				done[m] = true
-				e.Add(m, "/", h)
+				g.Add(m, rpath, h, routeMW...)
 			}
 		}
 	}
 	mkReq := func(method string, origins []string) *http.Request {
-		req := httptest.NewRequest(method, "/", nil)
+		req := httptest.NewRequest(method, path, nil)
 		for _, o := range origins {
 			req.Header["Origin"] = append(req.Header["Origin"], o)
 		}
@@ -346,7 +441,7 @@ func c11Run(ci any) (res Result) {
 				res.Oracle = fmt.Sprintf("CORS panicked: %v", r)
 			}
 		}()
-		// requests served through the same instance first: nothing of them may carry over
+		// requests served through the same instances first: nothing of them may carry over
 		for i, o := range c.Before {
 			m := http.MethodGet
 			if i%2 == 1 {
@@ -354,22 +449,22 @@ func c11Run(ci any) (res Result) {
 			}
 			e.ServeHTTP(httptest.NewRecorder(), mkReq(m, []string{o}))
 		}
-		ran, fcalls, routerAllow = false, nil, ""
+		ran = false
+		for i := range fcalls {
+			fcalls[i], routerAllow[i] = nil, ""
+		}
 		e.ServeHTTP(rec, req)
 		return false
 	}()
 
-	fn := 0
-	if c.Func != nil {
-		fn = fclass
-	}
 	reqHdr := ""
 	if len(c.ReqHeaders) > 0 {
 		reqHdr = c.ReqHeaders[0]
 	}
-	ops := []string{wInt(c.Ctor), wBool(skipped), wBool(c.Creds), wBool(c.Unsafe), wStrs(c.Allow), wInt(fn),
-		wStrs(c.Methods), wStrs(c.Headers), wStrs(c.Expose), wInt(c.MaxAge), wBool(preflight), wStrs(c.Origin),
-		wStr(routerAllow), wStr(reqHdr)}
+	ops := []string{wBool(preflight), wStrs(c.Origin), wStr(reqHdr), wInt(n)}
+	for i, l := range layers {
+		ops = append(ops, c11LayerOps(l, skipped[i], routerAllow[i], origin))
+	}
 	res.Ops = strings.Join(ops, " ")
 	if panicked {
 		res.Obs = "panic"
@@ -398,25 +493,63 @@ func c11Run(ci any) (res Result) {
 	}
 	res.Obs = strings.Join(obs, " ")
 
-	// ---- model-free oracle: the property itself
+	// ---- model-free oracle: the property itself, instance by instance
 	fail := func(s string) {
 		if res.Oracle == "" {
 			res.Oracle = s
 		}
 	}
 	valid := c11ValidOrigin(origin)
-	shaped := true
-	for _, a := range c.Allow {
-		if !c11EntryShaped(a) {
-			shaped = false
+	// verdict of instance i about the Origin: allows it; and whether that verdict is one the property fixes
+	// (AllowOriginFunc: its table; allow-list: syntactically valid origin and origin-shaped entries)
+	allows, definite := make([]bool, n), make([]bool, n)
+	anyCreds, onlyFuncs, firstActive := false, true, -1
+	for i, l := range layers {
+		if l.Func != nil {
+			allows[i], definite[i] = l.Func.class(origin) == 1, true
+		} else {
+			shaped := true
+			for _, a := range l.Allow {
+				if !c11EntryShaped(a) {
+					shaped = false
+				}
+			}
+			allows[i], definite[i] = c11Allowed(l.Allow, origin), valid && shaped
+		}
+		if skipped[i] {
+			continue
+		}
+		if firstActive < 0 {
+			firstActive = i
+		}
+		if l.Creds {
+			anyCreds = true
+		}
+		if l.Func == nil {
+			onlyFuncs = false
 		}
 	}
-	allowed := c11Allowed(c.Allow, origin)
+	where := func(i int) string {
+		if n == 1 {
+			return ""
+		}
+		return fmt.Sprintf(" (instance %d of %d on the request's path)", i, n)
+	}
 	if len(acao) > 1 {
 		fail(fmt.Sprintf("%d Access-Control-Allow-Origin values", len(acao)))
 	}
-	switch {
-	case skipped:
+	for i, l := range layers {
+		if l.Func == nil {
+			continue
+		}
+		// AllowOriginFunc is asked about the Origin verbatim
+		for _, o := range fcalls[i] {
+			if o != origin {
+				fail(fmt.Sprintf("AllowOriginFunc asked about %q, the request's Origin is %q%s", o, origin, where(i)))
+			}
+		}
+	}
+	if allSkipped {
 		// the configured Skipper takes the request out of the middleware
 		if !ran {
 			fail(fmt.Sprintf("the configured Skipper skips this request, but the handler did not run (status %d)", rec.Code))
@@ -424,43 +557,56 @@ func c11Run(ci any) (res Result) {
 		if hasACAO || hasACAC {
 			fail("CORS grant headers on a request the configured Skipper skips")
 		}
-	case c.Func != nil:
-		// AllowOriginFunc decides: it is asked about the Origin verbatim, and only its yes grants access
-		for _, o := range fcalls {
-			if o != origin {
-				fail(fmt.Sprintf("AllowOriginFunc asked about %q, the request's Origin is %q", o, origin))
-			}
-		}
-		if hasACAO {
-			if fclass != 1 {
-				fail(fmt.Sprintf("Access-Control-Allow-Origin %q although AllowOriginFunc did not allow %q (answer class %d)", acao[0], origin, fclass))
-			}
-			if acao[0] != origin {
-				fail(fmt.Sprintf("Access-Control-Allow-Origin %q is not the Origin %q that AllowOriginFunc allowed", acao[0], origin))
-			}
-			if len(fcalls) == 0 {
-				fail("Access-Control-Allow-Origin granted without asking AllowOriginFunc")
-			}
-		}
-		if origin != "" && fclass != 1 && ran {
-			fail(fmt.Sprintf("request from %q reached the handler although AllowOriginFunc did not allow it (answer class %d)", origin, fclass))
-		}
-	default:
+	} else {
 		if hasACAO {
 			v := acao[0]
 			if v != "*" && v != origin {
 				fail(fmt.Sprintf("Access-Control-Allow-Origin %q is neither * nor the request's Origin %q", v, origin))
 			}
-			if valid && shaped && !allowed {
-				fail(fmt.Sprintf("Access-Control-Allow-Origin %q emitted for origin %q, which no entry of %q allows (equality, *, or */? pattern over the whole origin)", v, origin, c.Allow))
+			if onlyFuncs && v != origin {
+				fail(fmt.Sprintf("Access-Control-Allow-Origin %q is not the Origin %q that AllowOriginFunc allowed", v, origin))
+			}
+			// some instance that looked at the request must allow the origin
+			granted, undecided, asked := false, false, false
+			for i := range layers {
+				if skipped[i] {
+					continue
+				}
+				if !definite[i] {
+					undecided = true
+				} else if allows[i] {
+					granted = true
+				}
+				if len(fcalls[i]) > 0 {
+					asked = true
+				}
+			}
+			if !granted && !undecided {
+				if onlyFuncs {
+					fail(fmt.Sprintf("Access-Control-Allow-Origin %q although AllowOriginFunc did not allow %q", v, origin))
+				} else {
+					fail(fmt.Sprintf("Access-Control-Allow-Origin %q emitted for origin %q, which no instance on the path allows (first allow-list %q: equality, *, or */? pattern over the whole origin)", v, origin, layers[0].Allow))
+				}
+			}
+			if onlyFuncs && !asked {
+				fail("Access-Control-Allow-Origin granted without asking AllowOriginFunc")
 			}
 		}
-		if !preflight && origin != "" && valid && shaped && !allowed && ran {
-			fail(fmt.Sprintf("non-preflight %s from disallowed origin %q reached the handler (status %d)", c.Method, origin, rec.Code))
+		// behind any stack every instance must pass the request on its own
+		if ran && origin != "" {
+			for i := range layers {
+				if !skipped[i] && definite[i] && !allows[i] {
+					if layers[i].Func != nil {
+						fail(fmt.Sprintf("request from %q reached the handler although AllowOriginFunc did not allow it (answer class %d)%s", origin, layers[i].Func.class(origin), where(i)))
+					} else {
+						fail(fmt.Sprintf("non-preflight %s from disallowed origin %q reached the handler (status %d): allow-list %q%s", c.Method, origin, rec.Code, layers[i].Allow, where(i)))
+					}
+				}
+			}
 		}
 	}
 	if hasACAC {
-		if !c.Creds {
+		if !anyCreds {
 			fail("Access-Control-Allow-Credentials sent although AllowCredentials is off")
 		}
 		if !hasACAO {
@@ -470,8 +616,9 @@ func c11Run(ci any) (res Result) {
 			fail(fmt.Sprintf("Access-Control-Allow-Credentials: %q", acac))
 		}
 	}
-	if preflight && !skipped {
-		funcErr := c.Func != nil && origin != "" && fclass >= 100 && rec.Code == fclass
+	if preflight && !allSkipped {
+		fl := layers[firstActive]
+		funcErr := fl.Func != nil && origin != "" && fl.Func.class(origin) >= 100 && rec.Code == fl.Func.class(origin)
 		if ran || (rec.Code != http.StatusNoContent && !funcErr) {
 			fail(fmt.Sprintf("OPTIONS preflight answered %d, handler ran=%v (expected 204 without the handler)", rec.Code, ran))
 		}
@@ -479,7 +626,7 @@ func c11Run(ci any) (res Result) {
 
 	// ---- tags
 	switch {
-	case skipped:
+	case allSkipped:
 		res.Tags = append(res.Tags, "skipped")
 	case origin == "":
 		res.Tags = append(res.Tags, "no-origin")
@@ -505,43 +652,69 @@ func c11Run(ci any) (res Result) {
 	if hasACAC {
 		res.Tags = append(res.Tags, "acac")
 	}
-	if c.Ctor == 1 {
-		res.Tags = append(res.Tags, "ctor-CORS()")
-	}
-	if c.Skipper == 1 {
-		res.Tags = append(res.Tags, "custom-skipper")
-	}
-	if c.Func != nil {
-		res.Tags = append(res.Tags, fmt.Sprintf("origin-func:%d", map[bool]int{true: fclass, false: 100}[fclass < 100]))
-	}
-	if routerAllow != "" && preflight {
-		res.Tags = append(res.Tags, "router-allow")
-	}
 	if c.Pre {
 		res.Tags = append(res.Tags, "pre")
 	}
 	if len(c.Before) > 0 {
 		res.Tags = append(res.Tags, "second-request-through-instance")
 	}
-	if c.Unsafe && !c.Creds {
-		res.Tags = append(res.Tags, "unsafe-flag-without-credentials")
+	if n > 1 {
+		res.Tags = append(res.Tags, fmt.Sprintf("stack:%d-instances", n))
+		outerOnly := false
+		for i := 1; i < n; i++ {
+			res.Tags = append(res.Tags, fmt.Sprintf("stack:inner-at-%d", layers[i].At))
+			if !skipped[0] && allows[0] && !skipped[i] && definite[i] && !allows[i] && origin != "" {
+				outerOnly = true
+			}
+		}
+		if outerOnly {
+			res.Tags = append(res.Tags, "stack:outer-allows-inner-rejects")
+			if !preflight {
+				res.Tags = append(res.Tags, "stack:outer-allows-inner-rejects-simple")
+			}
+		}
 	}
-	hasPattern, blankOnly := false, len(c.Allow) > 0
-	for _, a := range c.Allow {
-		if a != "*" && strings.ContainsAny(a, "*?") {
+	hasPattern := false
+	for i, l := range layers {
+		if l.Ctor == 1 {
+			res.Tags = append(res.Tags, "ctor-CORS()")
+		}
+		if l.Skipper == 1 {
+			res.Tags = append(res.Tags, "custom-skipper")
+		}
+		if l.Func != nil {
+			k := l.Func.class(origin)
+			if k >= 100 {
+				k = 100
+			}
+			res.Tags = append(res.Tags, fmt.Sprintf("origin-func:%d", k))
+		}
+		if routerAllow[i] != "" && preflight {
+			res.Tags = append(res.Tags, "router-allow")
+		}
+		if l.Unsafe && !l.Creds {
+			res.Tags = append(res.Tags, "unsafe-flag-without-credentials")
+		}
+		blankOnly := len(l.Allow) > 0
+		for _, a := range l.Allow {
+			if a != "*" && strings.ContainsAny(a, "*?") {
+				hasPattern = true
+			}
+			if a != "" {
+				blankOnly = false
+			}
+			if !utf8.ValidString(a) {
+				res.Tags = append(res.Tags, "entry-not-utf8")
+			}
+		}
+		if blankOnly {
+			res.Tags = append(res.Tags, "allow-list-of-blanks")
+		}
+		if l.Func != nil {
 			hasPattern = true
 		}
-		if a != "" {
-			blankOnly = false
-		}
-		if !utf8.ValidString(a) {
-			res.Tags = append(res.Tags, "entry-not-utf8")
-		}
 	}
-	if blankOnly {
-		res.Tags = append(res.Tags, "allow-list-of-blanks")
-	}
-	res.Nontrivial = (hasPattern || c.Func != nil) && origin != ""
+	res.Nontrivial = hasPattern && origin != ""
 	return res
 }
 
@@ -721,6 +894,105 @@ func c11GenConfig(r *rand.Rand, base *c11Case, allow []string) {
 	if r.Intn(10) == 0 {
 		base.Pre = true
 	}
+	if r.Intn(5) == 0 {
+		c11GenStack(r, base, allow)
+	}
+}
+
+// c11GenStack: further instances on the request's path.  The typical shapes: a permissive instance on the root
+// (CORS(), `*`, a wide pattern) with a strict one on the group / route; the same list twice; two unrelated lists;
+// a narrowed copy (one entry dropped / literal instances only) inside or outside.
+func c11GenStack(r *rand.Rand, base *c11Case, allow []string) {
+	strict := func() c11Layer {
+		l := c11Layer{Creds: r.Intn(3) == 0}
+		switch r.Intn(6) {
+		case 0: // same list again
+			l.Allow = append([]string(nil), allow...)
+		case 1: // narrowed: literal instances of some of the entries
+			for _, a := range allow {
+				if r.Intn(2) == 0 {
+					if x := c11Fill(r, a, false); x != "" {
+						l.Allow = append(l.Allow, x)
+					}
+				}
+			}
+			if len(l.Allow) == 0 {
+				l.Allow = []string{c11Base(r).String()}
+			}
+		case 2: // one entry dropped
+			if len(allow) > 1 {
+				k := r.Intn(len(allow))
+				l.Allow = append(append([]string(nil), allow[:k]...), allow[k+1:]...)
+			} else {
+				l.Allow = []string{c11Entry(r, c11Base(r))}
+			}
+		case 3: // unrelated list
+			for k := 1 + r.Intn(2); k > 0; k-- {
+				l.Allow = append(l.Allow, c11Entry(r, c11Base(r)))
+			}
+		case 4: // AllowOriginFunc over instances
+			f := &c11Func{Code: c11Pick(r, []int{500, 403, 418}), ErrTrue: r.Intn(2) == 0}
+			for _, a := range allow {
+				if x := c11Fill(r, a, false); x != "" && r.Intn(2) == 0 {
+					if r.Intn(5) == 0 {
+						f.Err = append(f.Err, x)
+					} else {
+						f.Allow = append(f.Allow, x)
+					}
+				}
+			}
+			l.Func = f
+		default: // blank / empty-looking lists
+			l.Allow = c11Pick(r, [][]string{{""}, {"null"}, {"https://"}})
+		}
+		if r.Intn(8) == 0 {
+			l.Skipper = 1
+		}
+		if r.Intn(6) == 0 {
+			l.Expose = []string{"X-Inner"}
+		}
+		return l
+	}
+	permissive := func() c11Layer {
+		switch r.Intn(4) {
+		case 0:
+			return c11Layer{Ctor: 1}
+		case 1:
+			return c11Layer{Allow: []string{"*"}, Creds: r.Intn(2) == 0, Unsafe: r.Intn(2) == 0}
+		case 2:
+			return c11Layer{Allow: c11Pick(r, [][]string{{"*://*"}, {"http*://*"}, {"https://*"}, nil})}
+		}
+		return c11Layer{Allow: append([]string(nil), allow...), Creds: r.Intn(3) == 0}
+	}
+	switch r.Intn(5) {
+	case 0, 1:
+		// permissive outside (replaces the case's own instance), strict inside
+		keep := c11Layer{Allow: base.Allow, Creds: base.Creds, Unsafe: base.Unsafe, Func: base.Func, Skipper: base.Skipper,
+			Methods: base.Methods, Headers: base.Headers, Expose: base.Expose, MaxAge: base.MaxAge, Ctor: base.Ctor}
+		p := permissive()
+		base.Ctor, base.Allow, base.Creds, base.Unsafe, base.Func, base.Skipper = p.Ctor, p.Allow, p.Creds, p.Unsafe, nil, 0
+		if r.Intn(2) == 0 {
+			keep = strict()
+		}
+		keep.At = c11Pick(r, []int{0, 1, 1, 2, 2})
+		base.Stack = []c11Layer{keep}
+	case 2:
+		// strict outside (the case's own), permissive inside
+		p := permissive()
+		p.At = c11Pick(r, []int{0, 1, 2})
+		base.Stack = []c11Layer{p}
+	default:
+		for k := 1 + r.Intn(2); k > 0; k-- {
+			l := strict()
+			l.At = c11Pick(r, []int{0, 1, 2, 2})
+			base.Stack = append(base.Stack, l)
+		}
+	}
+	if r.Intn(4) == 0 {
+		l := strict()
+		l.At = 2
+		base.Stack = append(base.Stack, l)
+	}
 }
 
 // per request: the parts that vary inside one configuration
@@ -810,7 +1082,18 @@ func c11Derive(r *rand.Rand, entry string) (string, string) {
 		host = inst[i+3:]
 	}
 	scheme := strings.TrimSuffix(inst, "://"+host)
-	switch r.Intn(21) {
+	switch r.Intn(22) {
+	case 20: // the host's labels in reverse order (a matcher that walks one side the wrong way round accepts these)
+		ls := strings.Split(host, ".")
+		if len(ls) > 1 {
+			for i, j := 0, len(ls)-1; i < j; i, j = i+1, j-1 {
+				ls[i], ls[j] = ls[j], ls[i]
+			}
+			if r.Intn(2) == 0 {
+				ls[0] = c11Pick(r, []string{"evil", "66", "attacker"})
+			}
+			return scheme + "://" + strings.Join(ls, "."), "labels-reversed"
+		}
 	case 19: // one byte replaced by another one
 		if len(inst) > 0 {
 			i := r.Intn(len(inst))
@@ -924,6 +1207,13 @@ func c11Gen(r *rand.Rand, tier string) []any {
 		c11GenConfig(r, cfgBase, allow)
 		// what the origins of this list are derived from: its entries, and the origins its AllowOriginFunc knows
 		derive := append([]string(nil), allow...)
+		for _, l := range cfgBase.Stack {
+			derive = append(derive, l.Allow...)
+			if l.Func != nil {
+				derive = append(append(derive, l.Func.Allow...), l.Func.Err...)
+			}
+		}
+		derive = append(derive, cfgBase.Allow...)
 		if cfgBase.Func != nil {
 			derive = append(append(derive, cfgBase.Func.Allow...), cfgBase.Func.Err...)
 			if r.Intn(2) == 0 {
@@ -1091,6 +1381,50 @@ func c11Shrink(ci any) []any {
 	if len(c.Before) > 0 {
 		simpler(func(d *c11Case) { d.Before = nil })
 	}
+	cpStack := func(d *c11Case) {
+		d.Stack = append([]c11Layer(nil), c.Stack...)
+		for i := range d.Stack {
+			d.Stack[i].Allow = append([]string(nil), c.Stack[i].Allow...)
+		}
+	}
+	for i, l := range c.Stack {
+		i, l := i, l
+		simpler(func(d *c11Case) { d.Stack = append(append([]c11Layer(nil), c.Stack[:i]...), c.Stack[i+1:]...) })
+		// the inner instance alone, in place of the case's own one
+		simpler(func(d *c11Case) {
+			d.Stack = nil
+			d.Ctor, d.Allow, d.Creds, d.Unsafe, d.Func, d.Skipper = l.Ctor, l.Allow, l.Creds, l.Unsafe, l.Func, l.Skipper
+			d.Methods, d.Headers, d.Expose, d.MaxAge = l.Methods, l.Headers, l.Expose, l.MaxAge
+		})
+		if l.At != 0 {
+			simpler(func(d *c11Case) { cpStack(d); d.Stack[i].At = 0 })
+		}
+		if l.Creds || l.Unsafe || l.Skipper != 0 || l.Expose != nil || l.Methods != nil || l.Headers != nil || l.MaxAge != 0 {
+			simpler(func(d *c11Case) {
+				cpStack(d)
+				x := &d.Stack[i]
+				x.Creds, x.Unsafe, x.Skipper, x.Expose, x.Methods, x.Headers, x.MaxAge = false, false, 0, nil, nil, nil, 0
+			})
+		}
+		if l.Func != nil {
+			simpler(func(d *c11Case) { cpStack(d); d.Stack[i].Func = nil })
+		}
+		if len(l.Allow) > 1 {
+			for k := range l.Allow {
+				k := k
+				simpler(func(d *c11Case) {
+					cpStack(d)
+					d.Stack[i].Allow = append(append([]string(nil), l.Allow[:k]...), l.Allow[k+1:]...)
+				})
+			}
+		}
+		for k, a := range l.Allow {
+			for x := len(a) - 1; x >= 0; x-- {
+				k, x, a := k, x, a
+				simpler(func(d *c11Case) { cpStack(d); d.Stack[i].Allow[k] = a[:x] + a[x+1:] })
+			}
+		}
+	}
 	// drop one character of the origin / of an entry (keeps "://")
 	if len(c.Origin) > 0 {
 		o := c.Origin[0]
@@ -1120,12 +1454,12 @@ func c11Known(ci any, res Result, modelObs string) string { return "" }
 func init() {
 	register(&Prop{
 		ID:             "C11",
-		Rule:           "allow-lists of 0-5 entries built from base origins: literals, `*`, sub-domain wildcard, `*` label in the middle / at the end, partial-label `*`/`?`, several wildcards, wildcard in scheme / port, regexp metacharacters, degenerate entries, lists of nothing but blank entries, entries with bytes that are not UTF-8 (do not compile); per list ~60 requests whose Origin is derived from one of ITS entries (or of the origins its AllowOriginFunc knows): instances (wildcards filled with labels, dotted runs, empty) and look-alikes (`?` filled with zero or two characters, suffix / prefix extension, left labels replaced, dot replaced, label inserted / dropped, other scheme, mangled `://`, hosts of 252-255 and origins of 260-262 bytes, the entry text itself, case change, char dropped / inserted / replaced, port, userinfo) x GET/POST/PUT/HEAD/OPTIONS x credentials / unsafe-wildcard flags (all four combinations). Round 4, per list: CORS() vs CORSWithConfig, custom Skipper (skips requests carrying a marker header), AllowOriginFunc as a table (allow / refuse / error with (false|true, err)), AllowMethods / AllowHeaders / ExposeHeaders (nil, empty, blank items) / MaxAge (0, positive, negative), routes with or without an OPTIONS handler (router-provided Allow in the context), e.Use or e.Pre; per request: skip marker, a middleware in front that replaces the context's Allow value by a string / an empty string / a non-string, Access-Control-Request-Headers, 0-2 earlier requests through the same instance (unrelated or resembling this one); plus one probe per list deciding whether an entry of valid / truncated / overlong / surrogate / out-of-range UTF-8 compiled. Oracle decides Allowed with its own glob matcher (no regexp), AllowOriginFunc cases by its table and call log. Non-trivial = (the allow-list has a wildcard pattern or AllowOriginFunc is set) and the request has an Origin; distinct = distinct model op lines",
+		Rule:           "allow-lists of 0-5 entries built from base origins: literals, `*`, sub-domain wildcard, `*` label in the middle / at the end, partial-label `*`/`?`, several wildcards, wildcard in scheme / port, regexp metacharacters, degenerate entries, lists of nothing but blank entries, entries with bytes that are not UTF-8 (do not compile); per list ~60 requests whose Origin is derived from one of ITS entries (or of the origins its AllowOriginFunc knows): instances (wildcards filled with labels, dotted runs, empty) and look-alikes (`?` filled with zero or two characters, suffix / prefix extension, left labels replaced, dot replaced, label inserted / dropped, other scheme, mangled `://`, hosts of 252-255 and origins of 260-262 bytes, the entry text itself, case change, char dropped / inserted / replaced, port, userinfo) x GET/POST/PUT/HEAD/OPTIONS x credentials / unsafe-wildcard flags (all four combinations). Round 4, per list: CORS() vs CORSWithConfig, custom Skipper (skips requests carrying a marker header), AllowOriginFunc as a table (allow / refuse / error with (false|true, err)), AllowMethods / AllowHeaders / ExposeHeaders (nil, empty, blank items) / MaxAge (0, positive, negative), routes with or without an OPTIONS handler (router-provided Allow in the context), e.Use or e.Pre; per request: skip marker, a middleware in front that replaces the context's Allow value by a string / an empty string / a non-string, Access-Control-Request-Headers, 0-2 earlier requests through the same instance (unrelated or resembling this one); plus one probe per list deciding whether an entry of valid / truncated / overlong / surrogate / out-of-range UTF-8 compiled. Round 5: for 1/5 of the lists 1-3 further CORS instances on the path of the same request (e.Use, the route's group, the route; twice on one route): permissive outside (CORS(), `*`, wide patterns) with a strict one inside, strict outside with a permissive one inside, the same list twice, narrowed copies, unrelated lists, AllowOriginFunc instances, per-instance Skipper; the context's Allow value is recorded in front of every instance; plus the `labels-reversed` look-alike. Oracle decides Allowed with its own glob matcher (no regexp), AllowOriginFunc cases by its table and call log. With several instances the oracle judges each one on its own: the handler ran => every unskipped instance allows the Origin; a grant in the response => some instance that looked at the request allows it. Non-trivial = (the allow-list has a wildcard pattern or AllowOriginFunc is set) and the request has an Origin; distinct = distinct model op lines",
 		New:            func() any { return &c11Case{} },
 		Gen:            c11Gen,
 		Run:            c11Run,
 		Shrink:         c11Shrink,
 		Known:          c11Known,
-		Correspondence: "C11.serveFull (lean/EchoModel/C11.lean: glob, validUtf8, matchScheme, matchSubdomain, allowLoop, decideOrigin, preflight / simple-request headers) vs middleware.CORS / CORSWithConfig + matchSubdomain + regexp",
+		Correspondence: "C11.serveStack over C11.serveFull (lean/EchoModel/C11.lean: glob, validUtf8, matchScheme, matchSubdomain, allowLoop, decideOrigin, preflight / simple-request headers) vs middleware.CORS / CORSWithConfig + matchSubdomain + regexp",
 	})
 }
